@@ -4,7 +4,7 @@ from __future__ import annotations
 import json
 import random
 
-from . import adapter, fscopes, par, tlc
+from . import adapter, deferred, fscopes, par, tlc
 from .common import Check
 
 # message class -> keywords that must all occur in the message (tolerant matching, DESIGN Appendix A)
@@ -229,6 +229,8 @@ def main(tier, seed):
             detail.update(kind="crossfile", state=multi[i])
             ck.violation(tags, detail)
     ck.note("crossfile_histories", nx)
+    # the defect class "unimplemented deferred binding": abstract types, EXTENDS chains (Deferred.tla)
+    deferred.run(ck, tier)
     for p in [q for q in progs if q["expDiag"]][:2] + progs[:1]:
         ck.sample({"source": fscopes.render(p["prog"]), "expected_diagnostics": list(p["expDiag"])})
     return ck.finish()
@@ -236,7 +238,15 @@ def main(tier, seed):
 
 def replay(path):
     rec = json.load(open(path))
-    res = check(rec["state"])
+    if rec.get("kind") == "deferred":
+        st = rec["state"]
+        st["impl"] = [set(x) for x in st["impl"]]
+        st["expDiag"] = [tuple(x) for x in st["expDiag"]]
+        res = deferred.check(st)
+    elif rec.get("kind") == "crossfile":
+        res = crossfile(rec["state"])
+    else:
+        res = check(rec["state"])
     for t, dct in res:
         print(sorted(t), json.dumps(dct, default=str)[:800])
     return 1 if res else 0
